@@ -142,6 +142,7 @@ func lexInputs(o *propOpts, each func(s string)) {
 	enumStrings(alpha24, n24, func(b []byte) { each(string(b)) })
 	enumStrings(alpha12, n12, func(b []byte) { each(string(b)) })
 	focusedStrings(o.tier, func(b []byte) { each(string(b)) })
+	byteMarkCases(each)
 	for _, s := range corpusStrings() {
 		each(s)
 	}
